@@ -355,8 +355,8 @@ def instances(ctx):
                             [("ctor", f"FRESETC {n} {q} {fbits(p0)} {fbits(p1)}"), ("closed", f"FRESETL {n} {q} {fbits(p0)} {fbits(p1)}")]))
             t1 = u(0.3, 2)
             thermal = [(1.0, 0.5, 0.3, 0.2), (1.0, 1.0, 0.3, 0.4), (0.7, 0.4, 0.0, 0.5), (0.9, 0.6, 0.25), (1.0, 0.8, 0.5, 1.0),
-                       (t1, u(0.05, t1), u(0, 2), u(0, 1)),
-                       (0.5, 0.8, 0.3, 0.2), (0.5, 1.0, 0.3, 0.2), (0.6, 0.9, 0.4), (0.4, 0.7, 0.0, 0.3), (t1, u(t1 * 1.01, 2 * t1), u(0, 2), u(0, 1))]
+                       (t1, min(t1, u(0.05, t1)), u(0, 2), u(0, 1)),
+                       (0.5, 0.8, 0.3, 0.2), (0.5, 1.0, 0.3, 0.2), (0.6, 0.9, 0.4), (0.4, 0.7, 0.0, 0.3), (t1, min(2 * t1, u(t1 * 1.01, 2 * t1)), u(0, 2), u(0, 1))]
             for ps in thermal:
                 eta = ps[3] if len(ps) == 4 else 0.0
                 args = f"{n} {q} {fbits(ps[0])} {fbits(ps[1])} {fbits(ps[2])} {fbits(eta)}"
@@ -379,7 +379,7 @@ def instances(ctx):
                     if rng.random() < 0.3:
                         w[-1] = 0.0  # probabilities summing to one: no identity weight
                     ps = [round(x / sum(w), 6) for x in w[:-1]]
-                    if w[-1] == 0.0:
+                    if w[-1] == 0.0 or sum(ps) > 1:
                         ps[-1] = max(0.0, 1 - sum(ps[:-1]))
                     if rng.random() < 0.3:
                         ps[0] = 0.0
@@ -508,6 +508,8 @@ def user_channels(ctx):
             us.append(np.linalg.qr(a)[0])
         w = [rng.random() for _ in range(cnt + 1)]
         ps = [round(x / sum(w), 6) for x in w[:-1]]
+        if sum(ps) > 1:
+            ps[-1] = max(0.0, 1 - sum(ps[:-1]))
         ops = ", ".join(f"({p!r}, {arr_expr(u)})" for p, u in zip(ps, us))
         out.append(("UnitaryChannel", "", f"gates.UnitaryChannel({tl!r}, [{ops}])", n, []))
     return out
@@ -700,7 +702,7 @@ def views_suite(ctx, insts, users):
                      expected=str(np.round(model, 6).tolist())[:1500], observed=str(np.round(real, 6).tolist())[:1500], broken=["C04_corr_views"])
     ctx.ob("C04_corr_views", bad == 0, "correspondence", f"{bad} disagreements" if bad else "")
     ctx.ob("C04_search_views", not any("C04_search_views" in f["broken"] for f in ctx.failures), "search", "")
-    ctx.notes.append(f"views: {len(chosen)} channel instances x 7 representations checked entrywise against the executed map on matrix units / Paulis; {len(lines)} model evaluations")
+    ctx.notes.append(f"views: {len(chosen)} channel instances x 7 representations checked entrywise against the Kraus map of the channel's own operators (= the executed map, float suite) on matrix units / Paulis; complete positivity of the executed map; {len(lines)} model evaluations")
 
 
 # ---------------------------------------------------------------------------
